@@ -46,28 +46,18 @@ class Store:
         for l, loc in enumerate(body.locals):
             if loc.get("user") and loc["ty"].startswith(("std::vec::Vec<", "std::collections::VecDeque<", "std::string::String")):
                 self.colls.add(l)
-        # booleans whose every assignment is a constant or a copy of another tracked boolean (fixpoint)
+        # boolean locals that are only written by plain assignments / call results and never borrowed mutably: a constant (or a copy of a
+        # known flag) makes the value known, any other write makes it unknown again
         cand = {l for l, loc in enumerate(body.locals) if loc["ty"] == "bool" and l > body.argc}
-        changed = True
-        while changed:
-            changed = False
-            for l in list(cand):
-                ds = [d for d in body.defs().get(l, []) if not (d[2] == "assign" and d[3]["pl"]["p"])]
-                ok = bool(ds)
-                for d in ds:
-                    if d[2] != "assign" or d[3]["rv"]["k"] != "use":
-                        ok = False
-                        break
-                    o = d[3]["rv"]["o"]
-                    if o.get("k") == "const":
-                        continue
-                    if op_local(o) in cand and not o["pl"]["p"]:
-                        continue
-                    ok = False
-                    break
-                if not ok:
-                    cand.discard(l)
-                    changed = True
+        for blk in body.blocks:
+            for s_ in blk["stmts"]:
+                rv = s_.get("rv")
+                if rv and rv.get("k") in ("ref", "rawptr") and rv.get("mut") and rv["pl"]["l"] in cand:
+                    cand.discard(rv["pl"]["l"])
+        for l in list(cand):
+            ds = body.defs().get(l, [])
+            if not ds or any(d[2] not in ("assign", "call") or (d[2] == "assign" and d[3]["pl"]["p"]) for d in ds):
+                cand.discard(l)
         self.flags = cand
 
     def transfer_block(self, b, st):
@@ -103,20 +93,26 @@ class Store:
             else:
                 st.pop(("var", l), None)
                 st.pop(("discr", l), None)
-            if l in self.flags and s["rv"]["k"] == "use":
-                o = s["rv"]["o"]
-                if o.get("k") == "const":
-                    st[("flag", l)] = bool(o.get("v"))
-                else:
-                    src = op_local(o)
-                    if ("flag", src) in st:
-                        st[("flag", l)] = st[("flag", src)]
+            if l in self.flags:
+                if s["rv"]["k"] == "use":
+                    o = s["rv"]["o"]
+                    if o.get("k") == "const":
+                        st[("flag", l)] = bool(o.get("v"))
                     else:
-                        st.pop(("flag", l), None)
+                        src = op_local(o)
+                        if ("flag", src) in st and not o["pl"]["p"]:
+                            st[("flag", l)] = st[("flag", src)]
+                        else:
+                            st.pop(("flag", l), None)
+                elif s["rv"]["k"] == "un" and s["rv"]["op"] == "Not" and op_local(s["rv"]["o"]) is not None and ("flag", op_local(s["rv"]["o"])) in st:
+                    st[("flag", l)] = not st[("flag", op_local(s["rv"]["o"]))]
+                else:
+                    st.pop(("flag", l), None)
         t = blk["term"]
         if t and t["k"] == "call" and t.get("dest") is not None and not t["dest"]["p"]:
             nm = t.get("callee") or ""
             dl_ = t["dest"]["l"]
+            st.pop(("flag", dl_), None)
             a0 = op_local(t["args"][0]) if t.get("args") and t["args"][0].get("pl") and not t["args"][0]["pl"]["p"] else None
             tag = st.get(("var", a0)) if a0 is not None else None
             new = None
